@@ -118,6 +118,28 @@ def templates(cfg):
 
         T(f"self_join.{how}", self_join)
 
+    # the alias' own references to columns that are hidden on BOTH sides of the self-join
+    for how in ("inner", "left"):
+
+        def self_join_hidden_both(p, t, how=how):
+            s = t >> p.alias("s")
+            return t >> p.select(t.a) >> p.join(s >> p.select(s.a), t.b == s.b + 1, how) >> p.mutate(w_origin=t.g, w_alias=s.g)
+
+        T(f"self_join.hidden_both.{how}", self_join_hidden_both, nmax=2)
+
+    def self_join_hidden_overwritten(p, t):
+        d = t >> p.mutate(b=t.b * 2)  # the old `b` is hidden on both sides
+        s = d >> p.alias("s")
+        return d >> p.left_join(s, d.a == s.g) >> p.mutate(x=d.b + 0, y=s.b + 0) >> p.filter(s.a.is_null() | (s.b >= d.b) | (s.b < d.b))
+
+    T("self_join.hidden_overwritten", self_join_hidden_overwritten, nmax=2)
+
+    def self_join_dropped_then_used(p, t):
+        s = t >> p.drop(t.g) >> p.alias("s")
+        return t >> p.drop(t.g) >> p.inner_join(s, t.a <= s.a) >> p.arrange(t.g.nulls_last(), s.b.nulls_last(), t.b.nulls_last(), s.a.nulls_last(), t.a.nulls_last())
+
+    T("self_join.dropped_then_used", self_join_dropped_then_used, nmax=2)
+
     def self_join_filtered(p, t):
         d = t >> p.filter(t.b > 0)
         s = d >> p.alias("s")
